@@ -24,6 +24,14 @@ func main() {
 		c14child(os.Args[2:])
 		return
 	}
+	if len(os.Args) >= 2 && os.Args[1] == "aliaschild" {
+		aliasChild()
+		return
+	}
+	if len(os.Args) >= 2 && os.Args[1] == "c13cold" {
+		coldChild(os.Args[2:])
+		return
+	}
 	if len(os.Args) >= 2 && os.Args[1] == "eval" { // eval: protocol lines on stdin -> answers on stdout (replays)
 		evalStdin()
 		return
